@@ -198,10 +198,11 @@ func TestCommandPairs(t *testing.T) {
 						// what A's exchange looked like varies: the BMC may number its RMCP
 						// and session-less headers, and a stray packet (ASF pong / RMCP ACK,
 						// delayed session-setup packet, reply to another command) may
-						// precede A's reply or be all that A receives
+						// precede A's reply or be all that A receives; A's reply may be
+						// lost (a transport error), refused or undecodable
 						w.BMC.RMCPSeq = []byte{0, 0x2a, 0xfe, 0}[n%4]
 						w.BMC.NumberPlain = n%5 == 1
-						script := [][]hx.Outcome{{hx.Final}, {hx.StrayASF, hx.Final}, {hx.StraySetup, hx.Final}, {hx.StrayOK, hx.Final}, {hx.StrayASF}, {hx.StraySetup}, {hx.Garbage, hx.Final}}[n%7]
+						script := [][]hx.Outcome{{hx.Final}, {hx.StrayASF, hx.Final}, {hx.StraySetup, hx.Final}, {hx.StrayOK, hx.Final}, {hx.StrayASF}, {hx.StraySetup}, {hx.Garbage, hx.Final}, {hx.Lost}, {hx.Busy, hx.Lost}, {hx.FinalCC}, {hx.FinalTruncated}}[n%11]
 						sc := &hx.Scripter{Script: script}
 						sc.Install(w.BMC)
 						ctx, cancel := w.Ctx(len(script))
